@@ -231,6 +231,7 @@ def check(chk):
     chk.floor("PAIR-20", 10)
 
     _show_events(chk, repo)
+    _token_cache(chk, repo)
 
     # ------------------------------------------------------------ FLOW-8
     lp = repo.cls(LP, "LightPlayer")
@@ -334,8 +335,23 @@ def _show_events(chk, repo):
             chk.ob("EVT-17", "events queued from `%s` are posted before the step returns" % key.split(".")[-1], w is None, f.where(c),
                    path=cfg.fmt_path(w, SH) if w else None, construct=f.ident, text="queued events posted: " + key.split(".")[-1])
     pe = ext.get("post_events", [])
-    chk.ob("EVT-17", "the events handed in by the caller (played / advanced ...) are queued", bool(pe), f.where(), construct=f.ident,
+    # the caller's events get into the list that is posted, and that list is the step's own: the looped / completed events are
+    # extended *into* it, so it must not be the caller's (configured) list itself
+    from sa.helpers import is_snapshot
+    binds = [x for x in walk_local(f.node) if isinstance(x, ast.Assign) and src(x.targets[0]) == "events"]
+    def _fresh(e):
+        if isinstance(e, ast.IfExp):
+            return _fresh(e.body) and _fresh(e.orelse)
+        if isinstance(e, ast.BoolOp):      # `post_events or []` yields the caller's list when it is non-empty
+            return all(_fresh(v) for v in e.values)
+        return isinstance(e, (ast.List, ast.ListComp)) or is_snapshot(e) or (isinstance(e, ast.BinOp) and isinstance(e.op, ast.Add))
+    fresh = bool(binds) and all(_fresh(x.value) for x in binds)
+    carried = bool(pe) or any("post_events" in src(x.value) for x in binds)
+    chk.ob("EVT-17", "the events handed in by the caller (played / advanced ...) are queued", carried, f.where(), construct=f.ident,
            text="post_events queued")
+    chk.ob("EVT-17", "the list the step extends and posts is its own (a new list or a copy), never the caller's configured event list", fresh, f.where(),
+           detail="events bound as %s: extending it in place adds the looped / completed events to the show's configured advanced / played events for good"
+           % [src(x.value) for x in binds], construct=f.ident, text="events list aliased")
     sn = rs.methods["_start_now"]
     c = [x for x in sn.calls() if call_attr(x) == "_run_next_step"]
     ok = bool(c) and kwarg(c[0], "post_events") is not None and src(kwarg(c[0], "post_events")) == "self.show_config.events_when_played"
@@ -420,6 +436,38 @@ def _show_events(chk, repo):
                text="colour arguments")
 
 
+def _token_cache(chk, repo):
+    """CACHE-17: the per-token step cache is keyed by the whole token mapping.  The cached steps depend on token *names and values*
+    (both are substituted); a key built from part of the mapping (`.values()`, `.keys()`, a single entry, `len`) makes two different
+    substitutions share one entry: the second show plays the first one's steps."""
+    f = repo.func(SH, "Show.get_show_steps_with_token")
+    chk.analysed(f)
+    stores = [x for x in walk_local(f.node) if isinstance(x, ast.Assign) and isinstance(x.targets[0], ast.Subscript) and src(x.targets[0].value) == "self._step_cache"]
+    reads = [x for x in walk_local(f.node) if isinstance(x, ast.Subscript) and src(x.value) == "self._step_cache" and isinstance(x.ctx, ast.Load)]
+    chk.need(stores and reads, "CACHE-17", "get_show_steps_with_token caches the substituted steps", f)
+    keyn = src(stores[0].targets[0].slice)
+    same = all(src(r.slice) == keyn for r in reads)
+    kd = [x for x in walk_local(f.node) if isinstance(x, ast.Assign) and src(x.targets[0]) == keyn]
+    whole = False
+    detail = "key %s" % keyn
+    if len(kd) == 1:
+        e = kd[0].value
+        detail = "key = %s" % src(e)
+        # every mention of the mapping inside the key expression is the mapping as a whole or its items()
+        uses = [y for y in ast.walk(e) if isinstance(y, ast.Name) and y.id == "show_tokens"]
+        partial = [y for y in ast.walk(e) if isinstance(y, ast.Attribute) and isinstance(y.value, ast.Name) and y.value.id == "show_tokens" and y.attr not in ("items",)]
+        sub = [y for y in ast.walk(e) if isinstance(y, ast.Subscript) and isinstance(y.value, ast.Name) and y.value.id == "show_tokens"]
+        lens = [y for y in ast.walk(e) if isinstance(y, ast.Call) and isinstance(y.func, ast.Name) and y.func.id in ("len", "bool", "id", "type")]
+        whole = bool(uses) and not partial and not sub and not lens
+    chk.ob("CACHE-17", "the step cache is read and written under the same key, built from the whole token mapping (names and values)", same and whole, f.where(),
+           detail=detail, construct=f.ident, text="step cache " + detail)
+    # the value cached is the substituted copy, and substitution happens on a copy of the show's steps
+    cp = [x for x in walk_local(f.node) if isinstance(x, ast.Assign) and src(x.targets[0]) == src(stores[0].value) and isinstance(x.value, ast.Call)
+          and call_attr(x.value) == "get_show_steps"]
+    chk.ob("CACHE-17", "tokens are substituted in a copy of the show's steps (get_show_steps()), never in the shared steps", len(cp) == 1, f.where(), construct=f.ident,
+           text="substitution on a copy")
+
+
 def battery():
     from sa.battery import M
     return [
@@ -457,6 +505,10 @@ def battery():
         M("twin: pending step removed only when there is one", SH, "        self._remove_delay_handler()\n\n        # clear context in used players", "        if self._delay_handler:\n            self._remove_delay_handler()\n\n        # clear context in used players", None),
         M("step_back runs the step before it moves the index", "mpf/assets/show.py", "        self.next_step_index -= steps + 1\n\n        self._run_next_step(post_events=self.show_config.events_when_stepped_back)", "        self._run_next_step(post_events=self.show_config.events_when_stepped_back)\n        self.next_step_index -= steps + 1", "DOM-32"),
         M("advance(steps=n) jumps to an absolute step", "mpf/assets/show.py", "            self.next_step_index += steps - 1", "            self.next_step_index = steps - 1", "DOM-32"),
+        M("step extends the caller's configured event list in place", SH, "        events = []\n        if post_events:\n            events.extend(post_events)", "        events = post_events if post_events else []", "EVT-17"),
+        M("twin: caller's events copied", SH, "        events = []\n        if post_events:\n            events.extend(post_events)", "        events = list(post_events) if post_events else []", None),
+        M("step cache keyed by the token values only", SH, "            token_hash = hash(str(show_tokens))", "            token_hash = hash(tuple(show_tokens.values()))", "CACHE-17"),
+        M("twin: step cache keyed by the sorted items", SH, "            token_hash = hash(str(show_tokens))", "            token_hash = hash(tuple(sorted(show_tokens.items())))", None),
     ]
 
 
